@@ -7,7 +7,7 @@ from z3 import And, Or, Not, Implies, If, IntVal, RealVal, BoolVal
 from . import sorts as so
 from .sorts import fresh, I, R, B
 from .values import (SList, SDict, SSet, SObj, TupleSpec, Closure, Callback, FuncRef, PyConst, NONE, NoneV,
-                     Unsupported, coerce)
+                     Unsupported, coerce, SDictOfLists, SListRef)
 
 
 class PathEnd(Exception):
@@ -130,7 +130,7 @@ MUTATING_METHODS = {'append', 'pop', 'add', 'remove', 'update', 'insert', 'clear
 class Run:
     """one symbolic path through one function"""
 
-    def __init__(self, unit, registry, lib, prefix, skip, solver_timeout_ms=400):
+    def __init__(self, unit, registry, lib, prefix, skip, solver_timeout_ms=200):
         self.unit, self.registry, self.lib = unit, registry, lib
         self.prefix, self.skip = prefix, skip
         self.trace = []
@@ -160,9 +160,11 @@ class Run:
     def oblige(self, kind, label, lineno, goal):
         if isinstance(goal, bool):
             goal = BoolVal(goal)
+
         idx = self.nobl
         self.nobl += 1
         if idx < self.skip:
+            self._after_oblige(kind, goal)
             return
         g = z3.simplify(goal)
         if z3.is_true(g):
@@ -170,6 +172,12 @@ class Run:
             pass
         ob = Obligation(kind, label, lineno, list(self.pc) + list(self.temp_assume), goal)
         self.obls.append(ob)
+        self._after_oblige(kind, goal)
+
+    def _after_oblige(self, kind, goal):
+        # execution continues past a safety check only if it succeeded (otherwise Python raised)
+        if kind == 'safety' and not self.temp_assume and z3.is_expr(goal) and not z3.is_false(z3.simplify(goal)):
+            self.assume(goal)
 
     def feasible(self, cond):
         r = self.solver.check(*(self.temp_assume + [cond]))
@@ -240,6 +248,8 @@ class Run:
             return g
         if e.id in self.registry.functions:
             return FuncRef(e.id)
+        if e.id in self.registry.classes():
+            return PyConst(('class', e.id))
         if e.id in self.lib.modules:
             return PyConst(('module', e.id))
         if e.id in self.lib.builtins:
@@ -278,6 +288,10 @@ class Run:
         return SList(esort, IntVal(len(items)), a, name='lit')
 
     def pack(self, v, esort):
+        if so.is_xr(v) and not isinstance(esort, TupleSpec) and esort == R:
+            # storing an extended real where a finite number is expected: must be finite here
+            self.oblige('safety', 'finite-value', getattr(self, 'cur_line', 0), Not(so.xr_isinf(v)))
+            return so.xr_val(v)
         if isinstance(esort, TupleSpec):
             if isinstance(v, tuple):
                 return esort.pack(v)
@@ -569,6 +583,10 @@ class Run:
         return self.getitem(base, k, e.lineno)
 
     def getitem(self, base, k, lineno):
+        if isinstance(base, tuple) and base and isinstance(base[0], str) and base[0] in ('gadj', 'gadj1', 'gadj2', 'gnodes', 'gnode1'):
+            h = self.lib.getitem(self, base, k, lineno)
+            if h is not None:
+                return h
         if isinstance(base, tuple) or isinstance(base, _PyList):
             items = base if isinstance(base, tuple) else base.items
             kk = z3.simplify(k) if z3.is_expr(k) else k
@@ -594,6 +612,13 @@ class Run:
         if isinstance(base, _EmptyList):
             self.oblige('safety', 'index-in-range', lineno, BoolVal(False))
             raise PathEnd()
+        if isinstance(base, SDictOfLists):
+            kk = coerce(k, base.ksort)
+            if base.default_empty:
+                base.dom = z3.Store(base.dom, kk, BoolVal(True))
+            else:
+                self.oblige('safety', 'key-present', lineno, base.dom[kk])
+            return base.at(kk)
         if isinstance(base, SDict):
             kk = coerce(k, base.ksort)
             if base.default is None:
@@ -669,6 +694,11 @@ class Run:
             return self.lib.modcall(self, name, args, kw, lineno)
         if isinstance(f, PyConst) and isinstance(f.v, tuple) and f.v[0] == 'builtin':
             return self.lib.builtin(self, f.v[1], args, kw, lineno)
+        if isinstance(f, PyConst) and isinstance(f.v, tuple) and f.v[0] == 'class':
+            from .lib import Untyped
+            u = Untyped(f.v[1])
+            u.ctor_args = (args, kw)
+            return u
         raise Unsupported('call of %r at line %d' % (f, lineno))
 
     def bind_args(self, fnode, args, kw, lineno, skip_self=False):
@@ -689,10 +719,10 @@ class Run:
         defaults = a.defaults
         for nm, d in zip(names[len(names) - len(defaults):], defaults):
             if nm not in bound:
-                bound[nm] = ('default', d)
+                bound[nm] = _Default(d)
         for x, d in zip(a.kwonlyargs, a.kw_defaults):
             if x.arg not in bound and d is not None:
-                bound[x.arg] = ('default', d)
+                bound[x.arg] = _Default(d)
         for nm in names:
             if nm not in bound:
                 self.oblige('safety', 'call-missing:%s' % nm, lineno, BoolVal(False))
@@ -706,8 +736,8 @@ class Run:
         bound = self.bind_args(node, args, kw, lineno)
         env = dict(f.env) if False else _ChainEnv(f.env)
         for k, v in bound.items():
-            if isinstance(v, tuple) and len(v) == 2 and v[0] == 'default' and isinstance(v[1], ast.AST):
-                v = self.ev(v[1], f.env)
+            if isinstance(v, _Default):
+                v = self.ev(v.node, f.env)
             env[k] = v
         self.depth += 1
         saved_env = getattr(self, 'cur_env', None)
@@ -731,8 +761,8 @@ class Run:
         fnode = self.registry.node(q)
         bound = self.bind_args(fnode, args, kw, lineno)
         for k, v in list(bound.items()):
-            if isinstance(v, tuple) and len(v) == 2 and v[0] == 'default' and isinstance(v[1], ast.AST):
-                bound[k] = self.ev(v[1], self.unit.globals_env())
+            if isinstance(v, _Default):
+                bound[k] = self.ev(v.node, self.unit.globals_env())
         if c.normalize is not None:
             c.normalize(self, bound)
         s = View(bound)
@@ -847,11 +877,16 @@ class Run:
             return val
         if isinstance(val, Untyped) and val.default is not None and not isinstance(val.default, _EmptyList):
             return mk(self, key.replace('.', '_'), empty=True, default_value=val.default)
+        if isinstance(val, Untyped) and getattr(val, 'ctor_args', None) is not None:
+            return mk(self, key.replace('.', '_'), empty=True, ctor_args=val.ctor_args, what=val.what)
         return mk(self, key.replace('.', '_'), empty=True)
 
     def assign(self, target, val, env, lineno):
         val = self.resolve_untyped(target, val)
         if isinstance(target, ast.Name):
+            ls = self.unit.local_sorts.get(target.id)
+            if ls is not None and z3.is_expr(val):
+                val = coerce(val, so.S[ls] if ls in so.S else {'R': R, 'I': I}[ls])
             env[target.id] = val
             return
         if isinstance(target, (ast.Tuple, ast.List)):
@@ -991,8 +1026,7 @@ class Run:
 
     # ---- loops ---------------------------------------------------------------------------------------
     def loop_spec(self, n):
-        k = self.loop_ord
-        self.loop_ord += 1
+        k = self.unit.loop_ordinal(n)
         return k, self.unit.loops.get(k)
 
     def modified_in(self, body_nodes, env):
@@ -1030,7 +1064,8 @@ class Run:
                     add(root_val(x.target.value))
                 elif isinstance(x, ast.Subscript) and isinstance(x.ctx, ast.Load):
                     o = root_val(x.value)
-                    if isinstance(o, SDict) and o.default is not None and all(o is not p for p in domonly):
+                    if isinstance(o, (SDict, SDictOfLists)) and o.default is not None and not getattr(o, 'no_insert', False) \
+                            and all(o is not p for p in domonly):
                         domonly.append(o)
                 elif isinstance(x, ast.Call):
                     f = x.func
@@ -1145,6 +1180,7 @@ class Run:
         names, objs, domonly = self.modified_in(n.body + [n.test], env)
         self.havoc_for_loop(names, objs, domonly, env)
         self.assume(spec.inv(self.view(env), it))
+        self.assume_lemmas(spec, env, it)
         c = self.truth(self.ev(n.test, env), n.lineno)
         if self.branch(c, n.lineno):
             try:
@@ -1153,6 +1189,7 @@ class Run:
                 pass
             except BreakEx:
                 return
+            self.assume_lemmas(spec, env, it)
             self.oblige('loop-preserve', 'loop%d-preserve' % k, n.lineno, spec.inv(self.view(env), it))
             if spec.variant is not None:
                 pass
@@ -1189,6 +1226,7 @@ class Run:
         self.assume(And(0 <= i, i <= seq.n))
         it = LoopIter(i, seq, entry)
         self.assume(spec.inv(self.view(env), it))
+        self.assume_lemmas(spec, env, it)
         if self.branch(i < seq.n, n.lineno):
             item = mkitem(i)
             self.assign(n.target, item, env, n.lineno)
@@ -1200,6 +1238,7 @@ class Run:
                 # state at break flows to the code after the loop; the loop variable keeps its value
                 return
             it2 = LoopIter(i + 1, seq, entry)
+            self.assume_lemmas(spec, env, it2)
             self.oblige('loop-preserve', 'loop%d-preserve' % k, n.lineno, spec.inv(self.view(env), it2))
             raise PathEnd()
         # exit: i == n.  The loop variable keeps the last item (or stays as it was if the sequence is empty);
@@ -1210,11 +1249,24 @@ class Run:
         return
 
     def loaded_after(self, loop, names):
+        """is a loop variable read after the loop (not counting later loops that rebind it)?"""
         end = loop.end_lineno
+        rebinding = []
+        for x in ast.walk(self.unit.node):
+            if isinstance(x, ast.For) and x.lineno > end:
+                tn = {y.id for y in ast.walk(x.target) if isinstance(y, ast.Name)}
+                rebinding.append((x.lineno, x.end_lineno, tn))
         for x in ast.walk(self.unit.node):
             if isinstance(x, ast.Name) and isinstance(x.ctx, ast.Load) and x.id in names and x.lineno > end:
+                if any(lo <= x.lineno <= hi and x.id in tn for lo, hi, tn in rebinding):
+                    continue
                 return True
         return False
+
+    def assume_lemmas(self, spec, env, it):
+        if spec.lemmas is not None:
+            for lm in spec.lemmas(self.view(env), it):
+                self.assume(lm)
 
     def view(self, env):
         return View(env, {'old': self.old, 'run': self})
@@ -1238,6 +1290,15 @@ class Run:
             self.oblige('site', 'site-unexpected:%s#%d' % (name, k), lineno, BoolVal(False))
 
 
+def _flatten_and(g):
+    if z3.is_and(g):
+        out = []
+        for ch in g.children():
+            out += _flatten_and(ch)
+        return out
+    return [g]
+
+
 def _mentions(term, var):
     seen = set()
     stack = [term]
@@ -1253,6 +1314,13 @@ def _mentions(term, var):
         else:
             stack.extend(t.children())
     return False
+
+
+class _Default:
+    """an argument not supplied at a call: the default expression of the signature"""
+
+    def __init__(self, node):
+        self.node = node
 
 
 class _ChainEnv(dict):
